@@ -317,13 +317,24 @@ func (ex *Exec) blockUntil(ready func() bool, what string, site ssa.Instruction)
 // syncPoint is a potential preemption point (only when schedule exploration is on).
 func (ex *Exec) syncPoint(site ssa.Instruction) {
 	key := ex.siteKey(site)
+	ordKey := ""
 	if key != "" {
 		if ex.spCount == nil {
 			ex.spCount = map[string]int{}
 		}
 		ex.spCount[key]++
+		if ex.everSched && len(ex.order) < 20000 && instrumentedSites()[key] {
+			ordKey = fmt.Sprintf("%s#%d", key, ex.spCount[key])
+		}
+	}
+	// the operation is recorded when it is about to execute: for a preempted one, when its goroutine resumes
+	record := func() {
+		if ordKey != "" {
+			ex.order = append(ex.order, ordKey)
+		}
 	}
 	if !ex.schedOn || ex.switches >= ex.maxSwitch {
+		record()
 		return
 	}
 	var cands []*Thread
@@ -334,6 +345,7 @@ func (ex *Exec) syncPoint(site ssa.Instruction) {
 		}
 	}
 	if len(cands) == 1 {
+		record()
 		return
 	}
 	ex.nondetEnv++
@@ -347,6 +359,7 @@ func (ex *Exec) syncPoint(site ssa.Instruction) {
 		}
 		ex.switchTo(cands[k])
 	}
+	record()
 }
 
 // Preempt: the Occ-th execution (counted over all goroutines) of the synchronisation operation at
